@@ -46,7 +46,8 @@ def _del(root, path):
 def _candidates(root, path, frozen):
     """simpler replacements for the node at path (simplest first)"""
     node = _get(root, path)
-    if path and isinstance(_get(root, path[:-1]), list) and path[-1] != 0:
+    if path and isinstance(_get(root, path[:-1]), list) and \
+            not (path[-1] == 0 and isinstance(node, str)):
         # list element (not the tag at index 0): try dropping it
         yield _del(root, path)
     if isinstance(node, str):
